@@ -133,6 +133,19 @@ var checkC10 = register("C10/vector", func(c vecCase) string {
 		if d := s.diff(snap3(o2)); d != "" {
 			return fmt.Sprintf("decode(encode(x)) differs from x for %q: %s", c.Input, d)
 		}
+		// the returned text must stay what it was: encode other objects of the same level, then
+		// look at the held encoding (and String()) again
+		held, heldStr := top.Enc, top.Str
+		for _, dv := range []string{"CVSS:3.0/AV:P/AC:H/PR:H/UI:R/S:C/C:L/I:N/A:L/E:U/RL:O/RC:U/CR:L/IR:H/AR:M/MAV:L/MAC:H/MPR:L/MUI:N/MS:U/MC:L/MI:H/MA:N", "CVSS:3.1/AV:L/AC:L/PR:L/UI:N/S:U/C:N/I:N/A:H"} {
+			if ref2, ok := spec.AcceptV3(dv, spec.Environmental); ok {
+				if d, err := decode3(lv, spec.ProjectV3(ref2, lv).String(), false); err == nil {
+					snap3(d)
+				}
+			}
+		}
+		if held != want || heldStr != want {
+			return fmt.Sprintf("the encoding returned for %q changed after other objects were encoded: now %q / %q, canonical %q", c.Input, held, heldStr, want)
+		}
 		return ""
 	}
 	if _, ok := spec.AcceptV2(c.Input, lv); !ok {
